@@ -35,14 +35,16 @@ def zipMismatchLine : Text → Text → Option Text
   | _, [] => none
   | a :: as, b :: bs => if a = b then (zipMismatchLine as bs).map (a :: ·) else some []
 
-/-- second loop of `dedent` (pinned tree: whitespace-only lines take part) -/
-def dedentNarrow : List Text → Text → Text
+/-- second loop of `dedent`: whitespace-only lines are skipped -/
+def dedentNarrow (isWs : Char → Bool) : List Text → Text → Text
   | [], pre => pre
   | line :: rest, pre =>
-    let pre' := match zipMismatchLine line pre with
-      | some p => if blen p < blen line ∧ blen p < blen pre then p else pre
-      | none => pre
-    dedentNarrow rest pre'
+    if line.all isWs then dedentNarrow isWs rest pre
+    else
+      let pre' := match zipMismatchLine line pre with
+        | some p => if blen p < blen line ∧ blen p < blen pre then p else pre
+        | none => pre
+      dedentNarrow isWs rest pre'
 
 def dedentOut (isWs : Char → Bool) (pre : Text) : List Text → Text
   | [] => []
@@ -54,7 +56,7 @@ def dedentOut (isWs : Char → Bool) (pre : Text) : List Text → Text
 def dedent (isWs : Char → Bool) (s : Text) : Text :=
   let ls := lines s
   let (seed, rest) := dedentSeed isWs ls
-  let pre := dedentNarrow rest seed
+  let pre := dedentNarrow isWs rest seed
   let result := dedentOut isWs pre ls
   if result.getLast? = some LF ∧ s.getLast? ≠ some LF then result.dropLast else result
 
